@@ -163,6 +163,15 @@ func (c *Pos1) Define(api frontend.API) error {
 	return nil
 }
 
+// PosAbort: a definition that is aborted INSIDE the Poseidon gadget (second operand missing): the fault of a
+// "fault, then reuse" history.
+type PosAbort struct{ A V }
+
+func (c *PosAbort) Define(api frontend.API) error {
+	abstractor.Call(api, poseidon.Poseidon2{In1: c.A})
+	return nil
+}
+
 type Pos2 struct{ A, B, Out V }
 
 func (c *Pos2) Define(api frontend.API) error {
